@@ -510,9 +510,16 @@ def pack_into_passes(nng, arch, verbose_packing=False):
                     # Op has dynamic weights, include this in the check below
                     ifm2 = ps.ops[0].weights
 
+            # Any other input of the pass (e.g. third input of Concat, dynamic weights) must not be
+            # produced by another pass
+            other_inputs_ok = all(
+                tens in sg.input_tensors or all(op.type in startup_init_ops for op in tens.ops) for tens in ps.inputs
+            )
+
             if ps.placement == PassPlacement.Cpu and (
                 ps.ops[0].ifm in sg.input_tensors
                 and (ifm2 in sg.input_tensors or ifm2 is None)
+                and other_inputs_ok
                 or (ps.ops[0].type in (Op.VarHandle, Op.ReadVariable, Op.CallOnce))
             ):
                 # This CPU pass only depends on sg.input_tensors or resource variable
@@ -543,7 +550,7 @@ def pack_into_passes(nng, arch, verbose_packing=False):
 
                 # Check all outputs from the cpu pass
                 if (
-                    any(ofm in [next_ps.ops[0].ifm, next_ps.ops[0].ifm2] for ofm in cpu_ps.ops[0].outputs)
+                    any(ofm in next_ps.inputs for ofm in cpu_ps.ops[0].outputs)
                     or next_ps.placement == PassPlacement.MemoryOnly
                 ):
                     # Not possible to move since next pass depends on the output from the cpu pass
